@@ -58,7 +58,7 @@ def build_all(need_coq_props=None):
         newest = max(os.path.getmtime(s) for s in srcs)
         if not os.path.exists(MODEL) or os.path.getmtime(MODEL) < newest:
             os.makedirs(os.path.join(COQ, "extracted"), exist_ok=True)
-            sh("timeout 600 coqc -Q theories Enr Extract.v", cwd=COQ)
+            sh("timeout 600 coqc -Q theories Enr -Q proofs EnrProofs Extract.v", cwd=COQ)
             sh("cp %s %s %s %s/ && cd %s && timeout 600 ocamlfind ocamlopt -O2 -package unix -linkpkg -w -a model.mli model.ml model_run.ml -o model_run"
                % (ext, ext + "i", os.path.join(VERIF, "ocaml", "model_run.ml"), BUILD, BUILD))
         # 3. the harness, against /repo as it is now
@@ -403,6 +403,10 @@ def diff_lines(impl, model, fields=None, skip=()):
         if k in skip:
             continue
         a, b = fi.get(k), fm.get(k)
+        if k == "kind" and a != b and a is not None and a in fm.get("kinds", "").split("+"):
+            # two causes hold of the call: the implementation reports another applicable one than the model (the model
+            # proves each listed kind is a cause that holds: Thm_Cause.step_err_is_a_cause / presign_causes)
+            continue
         if a != b:
             out.append((k, a, b))
     if fields is None and hi != hm:
